@@ -54,6 +54,10 @@ INTEGRAL_FLOATS = [0.0, 1.0, -2.0, 100.0, 1e15, -4096.0, 3.0, 0.0, 1e16, 2.0 ** 
                    1e300, 2.0 ** 53 + 2, -0.0]
 
 
+NUMERIC_KINDS = ('int', 'int32', 'uint', 'float_mixed_be', 'float_integral', 'float_fractional', 'float_mixed',
+                 'float32_mixed', 'float32_integral')
+
+
 def make_values(rng, kind, pattern):
     n = 0 if pattern == 'empty' else rng.randint(1, 8)
     if kind == 'int':
@@ -190,14 +194,20 @@ def run_case(case, rec, ssj=None):
     entry, kind, pattern = case['entry'], case['kind'], case['pattern']
     inplace, return_col = case['inplace'], case['return_col']
     vals = make_values(rng, kind, pattern)
+    long_n = case.get('long')
+    if long_n and vals and kind in NUMERIC_KINDS:
+        # a column longer than 2**16 rows: a long run of one whole number, then the case's own values
+        # (block-wise conversions decide "all values are whole numbers" per block, not per column)
+        vals = [3.0 if kind.startswith('float') else 7] * (long_n - len(vals)) + vals
     exp = reference(kind, vals)
     index = make_index(len(vals), rng.choice(['range', 'range', 'dup', 'const', 'str']))
     present = sum(1 for v in vals if not model.is_missing(v))
-    numeric = kind in ('int', 'int32', 'uint', 'float_mixed_be', 'float_integral', 'float_fractional', 'float_mixed', 'float32_mixed',
-                       'float32_integral')
+    numeric = kind in NUMERIC_KINDS
     degenerate = numeric and present == 0          # the documented exception (empty / all-NaN numeric)
     tag = '%s(kind=%s, values=%r, index=%r, inplace=%r%s): ' % (
-        'series_to_str' if entry == 'series' else 'dataframe_column_to_str', kind, vals, index, inplace,
+        'series_to_str' if entry == 'series' else 'dataframe_column_to_str', kind,
+        vals if not long_n else '%d x %r followed by %r' % (long_n - 8, vals[0], vals[-8:]),
+        index if not long_n else '%s (%d labels)' % (type(index).__name__, len(vals)), inplace,
         '' if entry == 'series' else ', return_col=%r' % return_col)
     rec.count('conversion_cases')
     if entry == 'series':
@@ -349,6 +359,18 @@ def run_shard(shard, rec):
                 rec.case(sig=('cv', entry, kind, pattern, inplace, return_col, case['seed']),
                          nontrivial=present > 0)
             rec.add('combination', (entry, kind, pattern, inplace, return_col))
+    # columns longer than 2**16 rows (one per numeric kind x entry of this shard, not in place)
+    seen = set()
+    for (entry, kind, pattern) in shard['combos']:
+        if kind not in NUMERIC_KINDS or pattern == 'empty' or (entry, kind) in seen:
+            continue
+        seen.add((entry, kind))
+        case = {'gen': 'cv', 'entry': entry, 'kind': kind, 'pattern': pattern, 'inplace': False,
+                'return_col': False, 'seed': shard['seed'] * 100000 + n, 'long': 65536 + 4464 + 8 * len(seen)}
+        n += 1
+        present = run_case(case, rec, ssj)
+        rec.case(sig=('cv_long', entry, kind, pattern, case['seed']), nontrivial=present > 0)
+        rec.count('columns_longer_than_65536_rows')
     rec.sample({'entry': entry, 'kind': kind, 'pattern': pattern,
                 'values': make_values(random.Random(1), kind, pattern)}, limit=1)
     reach.stop()
